@@ -327,7 +327,8 @@ fn c14(ctx: &Ctx) -> i32 {
             };
             // two fixed documents + seed dependent ones
             let seed = if k < 2 { 0xC14_0000 + k as u64 } else { ctx.seed.wrapping_mul(7919).wrapping_add(k as u64) };
-            make_doc(&root, "c14", &format!("d{}", k), seed, profile, true)
+            // namespace layout by document index (every layout occurs in every run)
+            make_doc(&root, "c14", &format!("d{}", k), seed, &format!("{}@ns{}", profile, [2, 3, 4, 5, 1, 0][(k + k / 6) % 6]), true)
         })
         .collect();
     let mut docs = docs;
